@@ -269,3 +269,16 @@ Definition xstep (x : exporter) (o : xop) : exporter * N :=
   | XSetBp i => let '(x', b) := set_active i x in (x', if b then 1 else 0)
   end.
 Definition xrun (x : exporter) (ops : list xop) : exporter := fold_left (fun x o => fst (xstep x o)) ops x.
+
+(* ------------------------------------------------------------------------------------------------ blocks as values
+   A block read from a file is a CdnsBlock like any other (CdnsBlockRead derives from it): same tables, items with
+   absolute times, address-event map.  Copy-construction, move-construction and assignment copy the value. *)
+Definition tbs_of_tables (tb : tables) : list (option val) :=
+  [Some (VL (t_ip tb)); Some (VL (t_ct tb)); Some (VL (t_nr tb)); Some (VL (t_sig tb)); Some (VL (t_qlist tb));
+   Some (VL (t_qrr tb)); Some (VL (t_rrlist tb)); Some (VL (t_rr tb)); Some (VL (t_mmd tb))].
+Definition tables_of_tbs (l : list (option val)) : tables :=
+  mkTables (lst (nth_o l 0)) (lst (nth_o l 1)) (lst (nth_o l 2)) (lst (nth_o l 3)) (lst (nth_o l 4))
+           (lst (nth_o l 5)) (lst (nth_o l 6)) (lst (nth_o l 7)) (lst (nth_o l 8)).
+Definition blk_of_rb (rb : rblock) : blk :=
+  mkBlk (match ts_of_val (r_earliest rb) with Some t => t | None => ts0 end) (vn (r_bpi rb)) (r_bp rb) (r_stats rb)
+        (tables_of_tbs (r_tables rb)) (r_qrs rb) (r_aecs rb) (r_mms rb).
